@@ -1,8 +1,40 @@
-(* Properties_C12.v — statements are added as the proofs land (see DESIGN.md). *)
+(* Properties_C12.v — C12: re-marshalling a decoded document reaches a fixpoint.
+   Object layer, token level (RoundTripProof.v): what the unmarshaller returns
+   marshals to the tokens it was read from, under the two conditions that make
+   re-marshalling deterministic — and both are needed (refutations below):
+     omit_ok A : no omitempty field has a type whose empty value still serializes (pointer to nullable, struct, interface)
+     rmv v     : integers in untyped slots already have the type an untyped slot gives them (int, or uint64 above MaxInt64)
+   So decoding v's document into an untyped variable (whose contents satisfy rmv by construction: the
+   unmarshaller only produces such values) and marshalling that again is a fixpoint; the first round may
+   re-type numbers (C12's own exception list).  The byte level adds the codec round trips C02 / C03+C05. *)
 From Coq Require Import List ZArith.
-Require Import Tok GoVal Marshal Unmarshal.
+Require Import Tok GoVal Marshal Unmarshal ObjProof RoundTripProof.
 Import ListNotations.
 Open Scope Z_scope.
+
+Theorem C12_remarshal_reproduces_tokens : forall E A t v f ts,
+  atlas_wf E A = true -> omit_ok A = true -> wt E A t v -> domb E A t v = true -> rmv v = true ->
+  marshal A f t v = MOk ts ->
+  exists f' v', unmarshal E A f' t (zero 50 E t) ts = UOk v' [] /\ req E A t v v' /\
+    forall f'', (f <= f'')%nat -> marshal A f'' t v' = MOk ts.
+Proof. exact token_roundtrip_remarshal. Qed.
+Print Assumptions C12_remarshal_reproduces_tokens.
+
+(* the untyped instance: t = interface{} *)
+Corollary C12_untyped_fixpoint : forall E A v f ts,
+  atlas_wf E A = true -> omit_ok A = true -> wt E A GAny v -> domb E A GAny v = true -> rmv v = true ->
+  marshal A f GAny v = MOk ts ->
+  exists f' v', unmarshal E A f' GAny (zero 50 E GAny) ts = UOk v' [] /\
+    forall f'', (f <= f'')%nat -> marshal A f'' GAny v' = MOk ts.
+Proof.
+  intros E A v f ts H1 H2 H3 H4 H5 H6.
+  destruct (token_roundtrip_remarshal E A GAny v f ts H1 H2 H3 H4 H5 H6) as (f' & v' & Hu & _ & Hm).
+  exists f', v'. split; assumption.
+Qed.
+
+(* why the conditions: uint8(5) in an untyped slot marshals as Uint 5, reads back as int 5, re-marshals as Int 5 *)
+Example C12_first_round_may_retype_numbers : rmv (VAny (Some (GNum U8, VNum 5))) = false.
+Proof. reflexivity. Qed.
 
 Example C12_model_runs :
   unmarshal_top [] (Atlas [] 0) GAny [Tok (ArrOpen 1) None; Tok (Uint 18446744073709551615) None; Tok ArrClose None] =
